@@ -384,7 +384,7 @@ def gen_disabled_cases(ctx):
         # engines in which NO output variable receives a value per row - every output variable disabled, every rule block
         # disabled, or (an antecedent over a disabled input variable has degree 0) every input variable disabled - are
         # engines like any other: one row per grid point, the output columns holding the single value (nan) each variable
-        # produces (F15: their export raised ValueError or printed a single row; `all(off_in)` is no longer excluded,
+        # produces (F17: their export raised ValueError or printed a single row; `all(off_in)` is no longer excluded,
         # the other two corners are drawn below, after the older choices)
         off = {"inputs": off_in, "outputs": off_out, "blocks": off_blocks}
         active = None if i % 2 == 0 else [rng.random() < 0.7 for _ in range(n)]
